@@ -232,7 +232,7 @@ func checkC09(c *hx.Ctx) {
 			"empty": {}, "truncated-1": sig[:len(sig)-1], "truncated-half": sig[:half], "extended-1": append(append([]byte{}, sig...), 0),
 			"extended-zero-prefix": append([]byte{0}, sig...), "extended-copy": append(append([]byte{}, sig...), sig...),
 			"swapped-halves": append(append([]byte{}, sig[half:]...), sig[:half]...),
-			"zero-r": append(make([]byte, half), sig[half:]...), "zero-s": append(append([]byte{}, sig[:half]...), make([]byte, half)...),
+			"zero-r":         append(make([]byte, half), sig[half:]...), "zero-s": append(append([]byte{}, sig[:half]...), make([]byte, half)...),
 			"all-zero": make([]byte, len(sig)), "all-ff": []byte(strings.Repeat("\xff", len(sig))),
 		}
 		for name, alt := range alts {
@@ -318,7 +318,11 @@ func checkC09(c *hx.Ctx) {
 				bad("y-plus-seven-bytes", func(m map[string]string) { b, _ := ref.UnB64(m["y"]); m["y"] = ref.B64(append(make([]byte, 7), b...)) }) &&
 				bad("off-curve-y", func(m map[string]string) { b, _ := ref.UnB64(m["y"]); b[len(b)-1] ^= 1; m["y"] = ref.B64(b) }) &&
 				bad("x-y-swapped", func(m map[string]string) { m["x"], m["y"] = m["y"], m["x"] }) &&
-				bad("zero-point", func(m map[string]string) { b, _ := ref.UnB64(m["x"]); z := ref.B64(make([]byte, len(b))); m["x"], m["y"] = z, z })
+				bad("zero-point", func(m map[string]string) {
+					b, _ := ref.UnB64(m["x"])
+					z := ref.B64(make([]byte, len(b)))
+					m["x"], m["y"] = z, z
+				})
 			if !okAll {
 				return
 			}
